@@ -399,6 +399,7 @@ func (ex *explorer) worker(w int) (err error) {
 	// package initialisation + setup, concretely
 	i.resetSched()
 	i.path = newPathCtx(i, WorkItem{}, 4_000_000_000)
+	i.path.setup = true
 	out, detail := i.runGuarded(func() {
 		call(i, nil, token.NoPos, ex.prog.Main.Func("init"), nil)
 		if ex.cfg.Setup != "" {
@@ -409,6 +410,7 @@ func (ex *explorer) worker(w int) (err error) {
 			call(i, nil, token.NoPos, fn, nil)
 		}
 	})
+	i.killThreads()
 	if out != "pass" {
 		return fmt.Errorf("initialisation/setup failed: %s: %s", out, detail)
 	}
